@@ -175,6 +175,11 @@ def cases(tier, seed):
     spd_dir = os.path.join(os.environ.get("VERIF_REPO", "/repo"), "test", "spd_data")
     for fn in sorted(os.listdir(spd_dir)):
         out.append(dict(kind="spd", file=fn, nlog=nlog, seed="C16/%d/%s" % (seed, fn), name="spd-" + fn, cost=1))
+        # the same image with its timing bytes re-drawn (other die densities / speed bins: long tRFC of 16 Gb dies, 12-bit
+        # fields with the top nibble used, negative fine offsets): "against the SPD contents" is a statement about any contents
+        for j in range(2 if tier == "quick" else 8):
+            out.append(dict(kind="spd", file=fn, variant=j + 1, nlog=max(40, nlog // 3), seed="C16/%d/%s/v%d" % (seed, fn, j),
+                            name="spd-%s-v%d" % (fn, j + 1), cost=1))
     # synthetic datasheets: every way a value can be written (ns, (ck, None), (None, ns), (ck, ns), absent), both class
     # styles (timing objects / plain attributes), random magnitudes -- the library only samples a few dozen values
     # the repository's own tests as a workload, with the contract on in record-only mode
@@ -299,6 +304,8 @@ def run_case(case):
     else:
         spd_dir = os.path.join(os.environ.get("VERIF_REPO", "/repo"), "test", "spd_data")
         data = load_spd_csv(os.path.join(spd_dir, case["file"]))
+        if case.get("variant"):
+            data = spd_variant(data, random.Random(case["seed"]))
         ref = spd_reference(data)
         clocks = [10e6 * (40.0 ** (i / (case["nlog"] - 1))) for i in range(case["nlog"])]
         frms = ["1x", "2x", "4x"] if data[2] == 0x0c else [None]
@@ -346,6 +353,40 @@ def summary(cov):
 
 
 # ---------------------------------------------------------------------------------------------- SPD reference
+def spd_variant(b, r):
+    """re-draws the timing bytes of an SPD image (JEDEC annex K / L field layout); everything else is left alone"""
+    b = list(b)
+
+    def fine():
+        return r.choice([0, 0, r.randrange(0, 60), 256 - r.randrange(1, 60)])      # signed 8-bit offset in FTB units
+    if b[2] == 0x0c:       # DDR4
+        b[25], b[26] = r.randrange(90, 130), r.randrange(90, 130)                      # tRCD, tRP (MTB = 125 ps)
+        tras, trc = r.randrange(250, 320), r.randrange(350, 470)
+        b[27], b[28], b[29] = ((trc >> 8) << 4) | (tras >> 8), tras & 0xFF, trc & 0xFF
+        for lo, v in ((30, r.choice([1280, 2080, 2800, 4400, 4400])), (32, r.choice([880, 1280, 2080, 2800])), (34, r.choice([720, 880, 1280, 2080]))):
+            b[lo], b[lo + 1] = v & 0xFF, v >> 8                                           # tRFC1 / 2 / 4 (up to 550 ns)
+        tfaw = r.choice([104, 168, 200, 240, 280])
+        b[36], b[37] = (b[36] & 0xF0) | (tfaw >> 8), tfaw & 0xFF
+        b[38], b[39], b[40] = r.randrange(20, 50), r.randrange(30, 62), r.randrange(35, 55)   # tRRD_S, tRRD_L, tCCD_L
+        twr = r.choice([120, 120, 160])
+        b[41], b[42] = (b[41] & 0xF0) | (twr >> 8), twr & 0xFF
+        wtrs, wtrl = r.choice([20, 24]), r.choice([60, 64, 300])
+        b[43], b[44], b[45] = ((wtrl >> 8) << 4) | (wtrs >> 8), wtrs & 0xFF, wtrl & 0xFF
+        for i in (117, 118, 119, 120, 121, 122):
+            b[i] = fine()
+    else:                  # DDR3
+        b[17], b[18], b[19], b[20] = r.randrange(100, 130), r.randrange(90, 125), r.randrange(40, 90), r.randrange(90, 125)
+        tras, trc = r.randrange(260, 310), r.randrange(360, 420)
+        b[21], b[22], b[23] = ((trc >> 8) << 4) | (tras >> 8), tras & 0xFF, trc & 0xFF
+        trfc = r.choice([720, 880, 1280, 2080, 2800])
+        b[24], b[25] = trfc & 0xFF, trfc >> 8
+        b[26] = r.randrange(50, 70)
+        tfaw = r.choice([240, 280, 320, 360, 400])
+        b[28], b[29] = (b[28] & 0xF0) | (tfaw >> 8), tfaw & 0xFF
+        b[36], b[37] = fine(), fine()
+    return b
+
+
 def load_spd_csv(path):
     import csv
     data = [0] * 512
